@@ -219,6 +219,17 @@ func (x *Exec) load(st *State, p *Pointer, t types.Type) *Value {
 		}
 		return x.project(v, p.Path)
 	}
+	if at := wholeArrayThroughAllocPtr(p, t); at != nil {
+		// *p where p is the address of an array variable: the array's elements live in the slice-backing heap
+		// under the element type's keys (instr.go, Alloc), so the whole array is that heap row
+		el := leavesOf(at.Elem())
+		i := 0
+		return buildValue(t, func(Leaf) *Term {
+			key, stored, _ := x.leafKey(p, el[i])
+			i++
+			return Select(x.heapArr(st, key, stored), p.Base)
+		})
+	}
 	return buildValue(t, func(l Leaf) *Term {
 		key, stored, idxs := x.leafKey(p, l)
 		arr := x.heapArr(st, key, stored)
@@ -243,6 +254,14 @@ func (x *Exec) store(st *State, p *Pointer, v *Value) {
 		return
 	}
 	ts := leafTerms(v)
+	if at := wholeArrayThroughAllocPtr(p, v.T); at != nil {
+		for i, l := range leavesOf(at.Elem()) {
+			key, stored, _ := x.leafKey(p, l)
+			st.heap[key] = Store(x.heapArr(st, key, stored), p.Base, ts[i])
+			x.noteWrite(key, p.Base)
+		}
+		return
+	}
 	for i, l := range leavesOf(v.T) {
 		key, stored, idxs := x.leafKey(p, l)
 		arr := x.heapArr(st, key, stored)
@@ -638,4 +657,18 @@ func nodeCountAtLeast(t *Term, n int) bool {
 		return false
 	}
 	return walk(t)
+}
+
+// wholeArrayThroughAllocPtr recognises a load or store of a whole array of type t through the address of an
+// array variable (an Alloc of array type: element pointer with index 0 whose object type is the array's
+// element type) and returns the array type; nil otherwise.
+func wholeArrayThroughAllocPtr(p *Pointer, t types.Type) *types.Array {
+	at, ok := under(t).(*types.Array)
+	if !ok || p == nil || !p.Elem || len(p.Path) != 0 || p.ObjT == nil || !types.Identical(at.Elem(), p.ObjT) {
+		return nil
+	}
+	if p.Idx == nil || !(p.Idx.Op == "int" && p.Idx.Int != nil && p.Idx.Int.Sign() == 0) {
+		panic(unsupported{"whole-array access through a pointer into the middle of an array"})
+	}
+	return at
 }
